@@ -76,6 +76,16 @@ prop("C06", "exploration", "ledger + transport-log monitor over the exhaustively
      "a case is one configuration (size, layout, indirect, event_idx, access_platform, transport answer to queue_used, transport answer to max_queue_size, queue index); always non-trivial (creation or refusal is reached); distinct by configuration index. All 3072 are run.",
      [stage("checked")], [stage("checked"), stage("release"), stage("asan", optional=True), stage("miri", optional=True, timeout=7200)])
 
+prop("C10", "exploration", "MMIO bus trace (safe-mmio custom-mmio backend) checked per transport operation by a register-level reference device",
+     "Every MMIO load/store of the real MmioTransport (also wrapped in SomeTransport) is served by a register-level virtio-mmio model that never uses backing memory as the register file, so wrong offset, width, "
+     "direction, order and value are all observable; each Transport operation is run alone and its access list is checked against per-operation rules (allowed registers, queue selected first, low/high words, "
+     "ready/PFN written last, read-back of QueueReady=0, Status=0 as the last access on drop) and its result against the device state; probing is checked on random headers x region sizes (acceptance iff magic, version, known device id, size >= 0x100; no writes).",
+     "The register table (DESIGN Appendix A) is a transcription of VirtIO 1.2 §4.2.2/§4.2.4 (trusted base). A ConfigGeneration read on a legacy device is tolerated and counted. Rules are rule-based (what must precede what), not trace equality, where the specification leaves order open.",
+     "a case is (i) one MmioTransport (legacy or modern, direct or via SomeTransport, random device id / features) driven through 60 random Transport operations with random queue indices {0,1,7,0xffff,..}, sizes 2^0..2^15, 64-bit address triples with bits 31/32/63 forced, "
+     "feature words, status and interrupt values, or (ii) one probe of a random header (magic/version/device id drawn from {correct, +-1, 0, all-ones, random, byte-swapped}) with region size in {0,4,0xfc,0xff,0x100,0x101,0x200,0x1000}. "
+     "Non-trivial: at least one bus access or a refusal was observed (always). distinct: 64-bit key of (seed, case number) which determines all generated inputs; counts of checked operations per kind are in observed.op_*.",
+     [stage("checked")], [stage("checked"), stage("release", scale=200)])
+
 NOT_YET = {}
 import re
 props = [json.loads(l) for l in open(os.path.join(ROOT, "properties.jsonl"))]
